@@ -969,4 +969,231 @@ theorem Aux.fanOut {s : State} (h : Aux s) (k : AKind) (q : Qid) (ps : List Peer
   | nil => exact h
   | cons p ps ih => simp only [Coordinator.fanOut]; exact ih (h.osd ..) _
 
+
+/-! ## User commands and engine actions -/
+
+theorem WO.of_same {s s' : State} (h : WO s) (he : s'.engine = s.engine) (hl : OwnersLe s s') : WO s' :=
+  h.preserve_sub (he ▸ Sub.refl _) (Transfers.of_le hl)
+
+theorem WO.startLookup {s : State} (h : WO s) (kind : QKind) (key : Nat) (quorum : Quorum) :
+    WO (startLookup s kind key quorum) := by
+  refine h.preserve ?_ (Transfers.of_le (by unfold Coordinator.startLookup; owners_le))
+  intro x' hx' p hp
+  unfold Coordinator.startLookup at hx'
+  rcases List.mem_append.mp hx' with hx | hx
+  · exact .inl ⟨x', hx, rfl, rfl, hp⟩
+  · simp at hx; subst hx; simp [QState.pending] at hp
+
+theorem WO.command {s : State} (h : WO s) (c : Cmd) : WO (command s c) := by
+  cases c <;> simp only [Coordinator.command]
+  · exact h.startLookup _ _ _
+  · exact WO.startLookup (h.of_same rfl (by owners_le)) _ _ _
+  · exact h.startLookup _ _ _
+  · split
+    · exact h.of_same rfl (by owners_le)
+    · exact h.startLookup _ _ _
+  · exact h.startLookup _ _ _
+  · exact h.startLookup _ _ _
+
+theorem Aux.command {s : State} (h : Aux s) (c : Cmd) : Aux (command s c) := by
+  cases c <;> simp only [Coordinator.command, Coordinator.startLookup]
+  all_goals first
+    | exact h.of_sublist h.ctxConn (List.Sublist.refl _) (List.Sublist.refl _) (List.Sublist.refl _) rfl
+    | (split <;> exact h.of_sublist h.ctxConn (List.Sublist.refl _) (List.Sublist.refl _) (List.Sublist.refl _) rfl)
+
+theorem sendMessage_le (s : State) (q : Qid) (p : Peer) (o : OsdIn) : OwnersLe s (sendMessage s q p o) := by
+  unfold sendMessage
+  split
+  · exact osd_le ..
+  · exact (osd_le s p ⟨.findNode, q⟩ o).trans (by owners_le)
+
+theorem Aux.sendMessage {s : State} (h : Aux s) (q : Qid) (p : Peer) (o : OsdIn) : Aux (sendMessage s q p o) := by
+  unfold Coordinator.sendMessage
+  split
+  · exact h.osd ..
+  · have := h.osd p ⟨.findNode, q⟩ o
+    exact this.of_sublist this.ctxConn (List.Sublist.refl _) (List.Sublist.refl _) (List.Sublist.refl _) rfl
+
+theorem foldl_sendFail_gone (q : Qid) (l : List Peer) (e0 : Engine) (p : Peer) (hp : p ∈ l) :
+    Gone (l.foldl (fun e p => regSendFail e q p) e0) q false p := by
+  induction l generalizing e0 with
+  | nil => exact absurd hp (by simp)
+  | cons b l ih =>
+    simp only [List.foldl_cons]
+    rcases List.mem_cons.mp hp with hpb | hp
+    · subst hpb
+      exact Gone.sub (Shrinks.foldl _ (fun e p => Shrinks.sendFail q p (.refl e)) _ _).sub (gone_regSendFail _ _ _)
+    · exact ih _ hp
+
+theorem send_classify {e : Engine} {q : Qid} {x0 : Query} (hx0 : x0 ∈ e) (hid0 : x0.id = q) {kind quorum ps}
+    (hst0 : x0.st = .lookup kind quorum ps) (p : Peer) :
+    ∀ x1 ∈ updQ e q (fun _ => .lookup kind quorum (ps ++ [p])), ∀ p' ∈ x1.st.pending,
+      (∃ x ∈ e, x.id = x1.id ∧ x.st.isLookup = x1.st.isLookup ∧ p' ∈ x.st.pending) ∨
+      (x1.id = q ∧ x1.st.isLookup = true ∧ p' = p) := by
+  intro x1 hx1 p' hp'
+  obtain ⟨x, hx, hid, _, hst⟩ := mem_updQ hx1
+  rcases hst with ⟨_, hst⟩ | ⟨hq, hst⟩
+  · exact .inl ⟨x, hx, hid.symm, by rw [hst], by rw [← hst]; exact hp'⟩
+  · rw [hst] at hp'
+    simp only [QState.pending] at hp'
+    rcases List.mem_append.mp hp' with hps | hpp
+    · refine .inl ⟨x0, hx0, by rw [hid0, hid, hq], by rw [hst, hst0]; rfl, ?_⟩
+      rw [hst0]; exact hps
+    · refine .inr ⟨by rw [hid, hq], by rw [hst]; rfl, by simpa using hpp⟩
+
+theorem engineStep_inv {s s' : State} (hA : Aux s) (h : WO s) {act : EAct} {outs : List OsdIn}
+    (hstep : engineStep s act outs = some s') : Aux s' ∧ WO s' := by
+  unfold engineStep at hstep
+  cases act with
+  | send q p =>
+    simp only at hstep
+    split at hstep
+    · rename_i qi key kind quorum ps hf
+      split at hstep
+      · exact absurd hstep (by simp)
+      · injection hstep with hstep
+        subst hstep
+        have hx0 := findQ_mem hf
+        refine ⟨?_, ?_⟩
+        · apply Aux.sendMessage
+          exact hA.of_sublist hA.ctxConn (List.Sublist.refl _) (List.Sublist.refl _) (List.Sublist.refl _) rfl
+        refine h.preserve ?_ (Transfers.of_le (OwnersLe.trans (by owners_le) (sendMessage_le _ _ _ _)))
+        intro x' hx' p' hp'
+        unfold sendMessage at hx' ⊢
+        split
+        · rename_i hok
+          rw [if_pos hok, osd_engine] at hx'
+          rcases send_classify hx0.1 hx0.2 rfl p x' hx' p' hp' with hl | ⟨hid, hlk, hpp⟩
+          · exact .inl hl
+          · rw [hid, hlk, hpp]
+            exact .inr (osd_owned _ p ⟨.findNode, q⟩ _ true rfl hok)
+        · rename_i hok
+          rw [if_neg hok] at hx'
+          simp only [osd_engine] at hx'
+          obtain ⟨x1, hx1, hid1, hlk1, hpp1⟩ :=
+            ((sub_regSendFail _ q p).trans (sub_regRespDone _ q p)) x' hx'
+          rcases send_classify hx0.1 hx0.2 rfl p x1 hx1 p' (hpp1 p' hp') with ⟨x, hx, hid, hlk, hpx⟩ | ⟨hid, hlk, hpp⟩
+          · exact .inl ⟨x, hx, hid.trans hid1, hlk.trans hlk1, hpx⟩
+          · exfalso
+            subst hpp
+            exact gone_bothFail _ q p' true x' hx' (hid1.symm.trans hid) (hlk1.symm.trans hlk) hp'
+    · exact absurd hstep (by simp)
+  | lookupDone q ok peers =>
+    simp only at hstep
+    split at hstep
+    · rename_i qi key kind quorum ps hf
+      have fin : ∀ ok, Aux (emit { s with engine := removeQ s.engine q } q ok) ∧
+          WO (emit { s with engine := removeQ s.engine q } q ok) := fun ok =>
+        ⟨hA.of_sublist hA.ctxConn (List.Sublist.refl _) (List.Sublist.refl _) (List.Sublist.refl _) rfl,
+         h.preserve_sub (sub_removeQ _ _) (Transfers.of_le (by unfold emit; owners_le))⟩
+      split at hstep
+      · split at hstep
+        · exact absurd hstep (by simp)
+        · injection hstep with hstep; subst hstep; exact fin false
+      · split at hstep
+        · injection hstep with hstep; subst hstep; exact fin true
+        · injection hstep with hstep; subst hstep; exact fin true
+        · injection hstep with hstep; subst hstep; exact fin true
+        · split at hstep
+          · exact absurd hstep (by simp)
+          · injection hstep with hstep
+            subst hstep
+            have hA0 : Aux { s with engine := removeQ s.engine q } :=
+              hA.of_sublist hA.ctxConn (List.Sublist.refl _) (List.Sublist.refl _) (List.Sublist.refl _) rfl
+            have hAf := hA0.fanOut (if kind = .addProvider then .addProvider else .putValue) q peers outs
+            have hle : OwnersLe s (fanOut (if kind = .addProvider then .addProvider else .putValue) q
+                { s with engine := removeQ s.engine q } peers outs).1 :=
+              OwnersLe.trans (by owners_le) (fanOut_le ..)
+            have hm : mA false (if kind = QKind.addProvider then AKind.addProvider else AKind.putValue) = true := by
+              split <;> rfl
+            refine ⟨hAf.of_sublist hAf.ctxConn (List.Sublist.refl _) (List.Sublist.refl _) (List.Sublist.refl _) rfl, ?_⟩
+            refine h.preserve ?_ (Transfers.of_le (hle.trans (by unfold startTracking; owners_le)))
+            intro x' hx' p' hp'
+            have hsub := (Shrinks.foldl (fun e p => regSendFail e q p)
+              (fun e p => Shrinks.sendFail q p (.refl e))
+              (fanOut (if kind = .addProvider then .addProvider else .putValue) q
+                { s with engine := removeQ s.engine q } peers outs).2
+              ((fanOut (if kind = .addProvider then .addProvider else .putValue) q
+                { s with engine := removeQ s.engine q } peers outs).1.engine ++
+                [⟨q, key, .tracker (kind != .addProvider) (Tracker.new peers quorum)⟩])).sub
+            obtain ⟨x, hx, hid, hlk, hpp⟩ := hsub x' hx'
+            rcases List.mem_append.mp hx with hx | hx
+            · rw [fanOut_engine] at hx
+              exact .inl ⟨x, (List.mem_filter.mp hx).1, hid, hlk, hpp p' hp'⟩
+            · simp only [List.mem_singleton] at hx
+              subst hx
+              have hpeers : p' ∈ peers := List.mem_eraseDups.mp (hpp p' hp')
+              rcases fanOut_owned (if kind = .addProvider then .addProvider else .putValue) q
+                { s with engine := removeQ s.engine q } peers outs false hm p' hpeers with hfail | hown
+              · exfalso
+                exact foldl_sendFail_gone q _ _ p' hfail x' hx' hid.symm hlk.symm hp'
+              · rw [← hid, ← hlk]
+                exact .inr (hown.mono (by unfold startTracking; owners_le))
+    · exact absurd hstep (by simp)
+  | partialResult q =>
+    simp only at hstep
+    split at hstep
+    · injection hstep with hstep; subst hstep; exact ⟨hA, h⟩
+    · exact absurd hstep (by simp)
+  | trackerDone q =>
+    simp only at hstep
+    split at hstep
+    · split at hstep
+      · split at hstep
+        · injection hstep with hstep
+          subst hstep
+          exact ⟨hA.of_sublist hA.ctxConn (List.Sublist.refl _) (List.Sublist.refl _) (List.Sublist.refl _) rfl,
+            h.preserve_sub (sub_removeQ _ _) (Transfers.of_le (by unfold emit; owners_le))⟩
+        · injection hstep with hstep
+          subst hstep
+          exact ⟨hA.of_sublist hA.ctxConn (List.Sublist.refl _) (List.Sublist.refl _) (List.Sublist.refl _) rfl,
+            h.preserve_sub (sub_removeQ _ _) (Transfers.of_le (by unfold emit; owners_le))⟩
+      · exact absurd hstep (by simp)
+    · exact absurd hstep (by simp)
+
+/-! ## Every reachable state -/
+
+theorem step_inv {s s' : State} (hL : Ledger s) (hA : Aux s) (h : WO s) {l : Label} (hstep : step s l = some s') :
+    Aux s' ∧ WO s' := by
+  cases l with
+  | cmd c => injection hstep with hstep; subst hstep; exact ⟨hA.command c, h.command c⟩
+  | engine a outs => exact engineStep_inv hA h hstep
+  | established p outs =>
+    injection hstep with hstep; subst hstep
+    exact ⟨hA.established p outs, h.preserve_sub (established_shrinks ..).sub (established_transfers s p outs hA)⟩
+  | closed p =>
+    injection hstep with hstep; subst hstep
+    exact ⟨hA.closed p, h.preserve_sub (closed_shrinks ..).sub (closed_transfers s p)⟩
+  | dialFailure p =>
+    injection hstep with hstep; subst hstep
+    exact ⟨hA.dialFailure p, h.preserve_sub (dialFailure_shrinks ..).sub (dialFailure_transfers s p)⟩
+  | subOpened sid =>
+    injection hstep with hstep; subst hstep
+    exact ⟨hA.subOpened sid, h.preserve_sub (by rw [subOpened_engine]; exact Sub.refl _)
+      (subOpened_transfers s sid hA hL.idsNodup)⟩
+  | subOpenFailure sid =>
+    injection hstep with hstep; subst hstep
+    exact ⟨hA.subOpenFailure sid, h.preserve_sub (subOpenFailure_shrinks ..).sub (subOpenFailure_transfers s sid hA)⟩
+  | result f r =>
+    injection hstep with hstep; subst hstep
+    exact ⟨hA.execResult f r, h.preserve_sub (execResult_sub s f r) (execResult_transfers s f r)⟩
+
+theorem inv_reachable {s : State} (h : Reachable s) : Aux s ∧ WO s := by
+  induction h with
+  | init => exact ⟨Aux.init, fun x hx => absurd hx (by simp)⟩
+  | step l hr hstep ih => exact step_inv (Ledger.reachable hr) ih.1 ih.2 hstep
+
+/-- **The ownership invariant holds in every reachable state.** -/
+theorem waitingOwned_reachable {s : State} (h : Reachable s) : WaitingOwned s :=
+  (WO_iff s).mpr (inv_reachable h).2
+
+/-- `peers` (the coordinator's per-peer contexts) only has connected peers as keys … -/
+theorem ctx_connected {s : State} (h : Reachable s) : ∀ p ∈ s.ctx, p ∈ s.connected := (inv_reachable h).1.ctxConn
+
+/-- … hence the `Entry::Occupied` branch of `on_connection_established` ("connection already exists,
+discarding opening substreams") is unreachable: `ConnectionEstablished` is only reported for a peer
+without connection, and such a peer has no context. -/
+theorem occupied_unreachable {s : State} (h : Reachable s) (p : Peer) (hp : p ∉ s.connected) : p ∉ s.ctx :=
+  fun hc => hp (ctx_connected h p hc)
+
 end Litep2pVerif.Kad.Coordinator
